@@ -129,33 +129,9 @@ def run(tier):
                 chk.case((cn, op, "ids", which))
     # histories through the public API: a session configured with an auth user must still BE that user after failed / retried
     # discovery - otherwise every unauthenticated reply is acceptable to it (the socket holds no key at all)
-    import asyncio
     from checks import c13
-    hist = []
-    for ai, (auth, priv, kt) in enumerate([("md5", "none", "password"), ("sha1", "aes", "password"), ("md5", "des", "master"), ("sha1", "none", "localized")]):
-        for ci, calls in enumerate([["enter", "enter", "get", "get"], ["enter", "refresh", "get"], ["enter", "get", "get"]]):
-            nreq = sum(2 if c == "enter" else 1 for c in calls) + 1
-            for lost in ([0], [1], [0, 2]):
-                plan = [("reply", "A17", (i + 1) % len(c13.CLOCKS)) for i in range(nreq)]
-                for k in lost:
-                    plan[k] = "drop"
-                hist.append((auth, priv, kt, calls, plan, 900 + ai * 20 + ci * 5 + len(lost) + lost[0]))
-    if not thorough:
-        hist = [h for k, h in enumerate(hist) if (k + SEED) % 2 == 0]
     nraw = len(runs)
-
-    async def hist_async(items):
-        out = []
-        for (auth, priv, kt, calls, plan, i) in items:
-            cfg = c13.make_cfg(auth, priv, kt, c13.ENGINES["A17"], i)
-            a, b = await c13.run_async(rec, cfg, False, calls, plan)
-            out.append((a, b, dict(kind="async", auth=auth, priv=priv, kt=kt, given=False, engine="A17", calls=calls, plan=plan, idx=i, api_history=True)))
-        return out
-    runs += asyncio.run(hist_async(hist[0::2]))
-    for (auth, priv, kt, calls, plan, i) in hist[1::2]:
-        cfg = c13.make_cfg(auth, priv, kt, c13.ENGINES["A17"], i)
-        a, b = c13.run_sync(rec, cfg, False, calls, plan)
-        runs.append((a, b, dict(kind="sync", auth=auth, priv=priv, kt=kt, given=False, engine="A17", calls=calls, plan=plan, idx=i, api_history=True)))
+    runs += c13.lost_discovery_histories(rec, [("md5", "none", "password"), ("sha1", "aes", "password"), ("md5", "des", "master"), ("sha1", "none", "localized")], thorough)
     for a, b, info in runs[nraw:]:
         chk.case(("api-history", info["kind"], info["auth"], info["priv"], json.dumps(info["calls"]), json.dumps(info["plan"])))
     rec.close()
